@@ -106,3 +106,105 @@ Example C12_ring_nonvacuous :
   List.length (filter (is_cli "push_fail") (map snd (fst r))) = 1%nat /\
   List.length (filter (is_cli "pop_fail") (map snd (fst r))) = 1%nat.
 Proof. vm_compute. repeat split; reflexivity. Qed.
+
+(** ** WeakRingBuffer<void>: variable-size records (LV.Model.RingV, LV.Proofs.RingVProofs)
+
+    [vpushed tr] = the (size, seed) of the "vpush_ok" events (the record data are [data_bytes size seed]),
+    [npopped tr] = number of "vpop_ok" events.  Preconditions the code does not check, as boolean predicates:
+      [capv_ok exp2 cap]   capacity >= 1, a multiple of 8, < 2^62, a power of two when the mask is used
+                           (a capacity that is not a multiple of 8 makes the tail marker overrun the buffer);
+      [vop_ok cap op]      1 <= size <= capacity and calc_real_size size <= capacity (the code asserts "<";
+                           "=" is safe too);
+      [volv cap pos + cap < 2^64]   no counter wrap (each push advances back_ by at most real size + capacity). *)
+From LV Require Import Model.RingV Proofs.RingVBase Proofs.RingVProofs.
+
+(** every record returned by front() is the oldest record pushed and not yet popped: exact size, exact bytes —
+    including records placed at the start of the buffer after a tail marker *)
+Theorem C12_ringv_record_exact :
+  forall (exp2 : bool) (cap : Z) (pos : list vpop_) (cos : list vcop) c,
+    capv_ok exp2 cap = true -> forallb (vop_ok cap) pos = true -> volv cap pos + cap < two64 ->
+    Conc.reach (vinit_cfg exp2 cap pos cos) c ->
+    forall tr1 t args tr2, Conc.trace c = tr1 ++ (t, EvCli "vfront_ok" args) :: tr2 ->
+      exists size seed, nth_error (vpushed tr1) (npopped tr1) = Some (size, seed) /\
+                        args = size :: data_bytes size seed.
+Proof. exact ringv_record_exact. Qed.
+Print Assumptions C12_ringv_record_exact.
+
+(** the producer never writes outside the buffer nor on a byte of [front_, back_) (ghost flag of the model) *)
+Theorem C12_ringv_no_overlap :
+  forall (exp2 : bool) (cap : Z) (pos : list vpop_) (cos : list vcop) c,
+    capv_ok exp2 cap = true -> forallb (vop_ok cap) pos = true -> volv cap pos + cap < two64 ->
+    Conc.reach (vinit_cfg exp2 cap pos cos) c ->
+    v_wbad (Conc.shared c) = false.
+Proof. exact ringv_no_overlap. Qed.
+Print Assumptions C12_ringv_no_overlap.
+
+(** front() returns nullptr only if every pushed record has been popped (at the deciding load);
+    pop_front() right after a successful front() never fails *)
+Theorem C12_ringv_front_null_and_pop :
+  forall (exp2 : bool) (cap : Z) (pos : list vpop_) (cos : list vcop) c,
+    capv_ok exp2 cap = true -> forallb (vop_ok cap) pos = true -> volv cap pos + cap < two64 ->
+    Conc.reach (vinit_cfg exp2 cap pos cos) c ->
+    (forall tr1 t tr2, Conc.trace c = tr1 ++ (t, EvCli "vfront_null" []) :: tr2 ->
+       List.length (vpushed tr1) = npopped tr1) /\
+    (forall tr1 t args tr2, Conc.trace c <> tr1 ++ (t, EvCli "vpop_fail" args) :: tr2).
+Proof.
+  intros. split.
+  - eapply ringv_front_null_only_if_empty; eauto.
+  - eapply ringv_pop_front_after_front_succeeds; eauto.
+Qed.
+Print Assumptions C12_ringv_front_null_and_pop.
+
+(** what a failing back( size ) means.  [v_fails] holds (front_, back_, size) of every failing call, recorded by
+    the access that decided the failure.  With rs = real size, free = capacity - (back_ - front_) and
+    tail = capacity - back_ mod capacity:   free < rs   \/   (tail < rs /\ free - tail < rs) *)
+Theorem C12_ringv_push_fails_only_if_no_contiguous_space :
+  forall (exp2 : bool) (cap : Z) (pos : list vpop_) (cos : list vcop) c,
+    capv_ok exp2 cap = true -> forallb (vop_ok cap) pos = true -> volv cap pos + cap < two64 ->
+    Conc.reach (vinit_cfg exp2 cap pos cos) c ->
+    forall f b size, In (f, b, size) (v_fails (Conc.shared c)) ->
+      cap - (b - f) < rsz size \/
+      (cap - b mod cap < rsz size /\ cap - (b - f) - (cap - b mod cap) < rsz size).
+Proof. exact ringv_push_fails_only_if_no_contiguous_space. Qed.
+Print Assumptions C12_ringv_push_fails_only_if_no_contiguous_space.
+
+(** ... and NOT "only if free space < real size" (the typed ring's guarantee): refuted by a run in which
+    back( 40 ) (real size 48 < capacity 64, the code's own assert holds) fails on a completely empty ring
+    (front_ = back_ = 24), and fails again on retry.  Replayed on the real code: corpus/C12/void_back_fails_on_empty_ring.json,
+    known_findings.json signature C12-void-back-fails-on-empty-ring. *)
+Definition C12_ringv_push_fails_only_if_free_lt_real_statement : Prop :=
+  forall (exp2 : bool) (cap : Z) (pos : list vpop_) (cos : list vcop) c,
+    capv_ok exp2 cap = true -> forallb (vop_ok cap) pos = true -> volv cap pos + cap < two64 ->
+    Conc.reach (vinit_cfg exp2 cap pos cos) c ->
+    forall f b size, In (f, b, size) (v_fails (Conc.shared c)) -> cap - (b - f) < calc_real_size size.
+
+Theorem C12_ringv_push_fails_on_empty_refuted :
+  ~ C12_ringv_push_fails_only_if_free_lt_real_statement /\
+  exists (pos : list vpop_) (cos : list vcop) c f b size,
+    forallb (vop_ok 64) pos = true /\ Conc.reach (vinit_cfg true 64 pos cos) c /\
+    In (f, b, size) (v_fails (Conc.shared c)) /\ f = b /\ calc_real_size size < 64.
+Proof.
+  set (pos := [VPush 16 1; VPush 40 2; VPush 40 3]).
+  set (cos := [VConsume; VConsume; VConsume]).
+  set (sched := ([0; 0; 0; 0; 0; 1; 1; 1; 1; 1; 1; 1; 1] ++ repeat 0 20)%nat).
+  set (c := fst (Conc.run 1000 0 sched (vinit_cfg true 64 pos cos))).
+  assert (Hr : Conc.reach (vinit_cfg true 64 pos cos) c) by apply Conc.run_reach.
+  assert (Hf : v_fails (Conc.shared c) = [(24, 24, 40); (24, 24, 40)]) by (vm_compute; reflexivity).
+  split.
+  - intros H. specialize (H true 64 pos cos c eq_refl eq_refl eq_refl Hr 24 24 40).
+    rewrite Hf in H. specialize (H (or_introl eq_refl)). vm_compute in H. discriminate.
+  - exists pos, cos, c, 24, 24, 40. rewrite Hf. split; [reflexivity|]. split; [exact Hr|].
+    split; [left; reflexivity|]. split; [reflexivity|]. vm_compute. reflexivity.
+Qed.
+Print Assumptions C12_ringv_push_fails_on_empty_refuted.
+
+(** non-vacuity: capacity 64; a record that leaves a tail of exactly 8 bytes, a record placed at the start of
+    the buffer behind the tail marker, three records read back and popped *)
+Example C12_ringv_nonvacuous :
+  capv_ok false 64 = true /\ forallb (vop_ok 64) [VPush 48 5; VPush 9 6; VPush 16 7] = true /\
+  let r := RingV.run_case [64; 0]
+             [[[1; 48; 5]; [1; 9; 6]; [1; 16; 7]]; [[6]; [6]; [6]; [6]]]
+             [0; 0; 0; 0; 1; 1; 1; 1; 1; 0; 0; 0; 0; 0; 0; 0; 1; 1; 1; 1; 1; 1; 1; 1; 1; 1; 0; 0; 0; 0; 1; 1; 1; 1; 1; 1]%nat 1000 in
+  snd r = true /\ vpushed (fst r) = [(48, 5); (9, 6); (16, 7)] /\ npopped (fst r) = 3%nat /\
+  List.length (filter (is_cli "vfront_ok") (map snd (fst r))) = 3%nat.
+Proof. vm_compute. repeat split; reflexivity. Qed.
